@@ -40,7 +40,7 @@ type loadSpec struct {
 	Timeout bool        // load with a timeout (virtual timer)
 	// CallerDeadline: the caller's own context carries a deadline an hour away (far later than the configured timeout)
 	CallerDeadline bool
-	Perm    int         // index of the permutation in which the heads are handed to the loader (0 = the log's own order)
+	Perm           int // index of the permutation in which the heads are handed to the loader (0 = the log's own order)
 }
 
 func (s loadSpec) name(prefix string) string {
